@@ -28,7 +28,13 @@ func (g *Gen) macPayloadSweep(withInto bool) {
 		}
 		n := g.scale(150, 3000)
 		for i := 0; i < n; i++ {
-			g.add("macenc " + g.genPayloadTok(name, i%3))
+			op := "macenc " + g.genPayloadTok(name, i%3)
+			g.add(op)
+			if i%5 == 0 {
+				if res := execOp(op); strings.HasPrefix(res, "ok x") {
+					g.addf("macdec %s %s", name, res[3:])
+				}
+			}
 		}
 		// every boundary value of every field once, the other fields inside the specification
 		ds := payloadDomains[name]
@@ -39,7 +45,13 @@ func (g *Gen) macPayloadSweep(withInto bool) {
 					parts[i] = strconv.FormatInt(g.genField(e, 0), 10)
 				}
 				parts[j] = strconv.FormatInt(v, 10)
-				g.add("macenc " + name + "(" + strings.Join(parts, ",") + ")")
+				op := "macenc " + name + "(" + strings.Join(parts, ",") + ")"
+				g.add(op)
+				// ... and what the encoder made of it through the decoder: the decoder's own thresholds (frequency codes around
+				// 12 000 000, the sign bit of the margin, ...) are met exactly by the encodings of the boundary values
+				if res := execOp(op); strings.HasPrefix(res, "ok x") {
+					g.addf("macdec %s %s", name, res[3:])
+				}
 			}
 		}
 	}
